@@ -413,6 +413,20 @@ class SimThread:
         self.daemon = bool(daemon)
         self._task = None
         self._real = None
+        # sets of threads (ThreadPoolExecutor._threads) are iterated by the stdlib: the
+        # hash must not be address-based or the join order would differ per process
+        k = KERNEL
+        if k is not None:
+            k.thread_seq = getattr(k, "thread_seq", 0) + 1
+            self._hash = k.thread_seq
+        else:
+            self._hash = next(SimThread._counter) + 1000
+
+    def __hash__(self):
+        return self._hash
+
+    def __eq__(self, other):
+        return self is other
 
     def run(self):
         if self._target is not None:
